@@ -83,19 +83,20 @@ def run_one(script, clean, offset, nwatch, post, reentrant=''):
     kind, body, mode = script
     with World() as w:
         live = (kind == 'auth')
-        ctl = Ctl(w, live_connection_made=live)
+        ctl = Ctl(w, live_connection_made=live, early_watch=(nwatch if live else 0))
         replies = []
+        bare = 'N' in reentrant       # the caller keeps bare Deferreds and attaches its callbacks only after the loss
         if kind == 'cmds':
             replies = [SHAPES[s] for _, s in body]
             if mode == 'up':
                 for k, _ in body:
-                    ctl.submit(k)
+                    ctl.submit(k, bare=bare)
         elif kind == 'auth':
             for i in range(body):
                 ctl.submit('PK'[i % 2])
             # user commands were queued right behind PROTOCOLINFO, so Tor answers them second
             replies = AUTH_STREAM[:1] + [SHAPES['M1']] * body + AUTH_STREAM[1:]
-        pre_watch = [ctl.watch() for _ in range(nwatch)]
+        pre_watch = list(ctl.early) if live else [ctl.watch() for _ in range(nwatch)]
         if 'W' in reentrant:
             # a disconnect-notification handler that immediately submits a command and asks again
             pre_watch.append(ctl.watch(on_fire=lambda: (ctl.submit('P'), ctl.watch())))
@@ -149,6 +150,7 @@ def run_one(script, clean, offset, nwatch, post, reentrant=''):
             viol.append(('connection-dropped', 'protocol-raised', '%r' % (w.errors()[:1],)))
         else:
             ctl.lose(clean)
+        ctl.attach_callbacks()
         post_subs = []
         post_watch = []
         for op in post:
@@ -215,6 +217,8 @@ def run_task(param, acc):
     combos = [(nw, post, '') for nw in (0, 1, 2) for post in posts]
     combos += [(nw, post, re) for re in ('E', 'W', 'EW') for nw in (0, 1) for post in posts if len(post) <= 2]
     combos += [(nw, post, re) for re in ('C', 'CE') for nw in (0, 1) for post in posts if len(post) <= 1]
+    if script[0] == 'cmds' and script[2] == 'up':
+        combos += [(nw, post, 'N') for nw in (0, 1) for post in posts if len(post) <= 1]
     for offset in range(0, total + 1):
         for nwatch, post, reentrant in combos:
             if True:
